@@ -28,6 +28,16 @@ func init() {
 		Assume: []string{"FindColor: every palette member has the valid flag set (type invariant of a palette; ColorDefault inside a palette defeats the code's sentinel)"},
 	})
 	reg(&PropDef{
+		ID:    "C08",
+		Level: "proof",
+		Funcs: []string{"tcell.(*CellBuffer).Size", "tcell.(*CellBuffer).GetContent", "tcell.(*CellBuffer).Dirty", "tcell.(*CellBuffer).SetDirty",
+			"tcell.(*CellBuffer).Invalidate", "tcell.(*CellBuffer).LockCell", "tcell.(*CellBuffer).UnlockCell", "tcell.(*CellBuffer).Fill",
+			"tcell.(*CellBuffer).SetContent", "tcell.(*CellBuffer).Resize"},
+		Trusted: []string{"go-runewidth RuneWidth is a total function with values 0..2 (assumed contract runeWidth)",
+			"reflect.DeepEqual on two []rune is element-wise equality plus equal nil-ness (intrinsic model)"},
+		Assume: []string{"Resize is called with w,h >= 0 (a negative size panics in make; precondition derived from the call sites)"},
+	})
+	reg(&PropDef{
 		ID:    "C20",
 		Level: "proof",
 		Funcs: []string{"views.(*ViewPort).ValidateViewX", "views.(*ViewPort).ValidateViewY", "views.(*ViewPort).ValidateView",
